@@ -14,7 +14,8 @@ RULE = ("Decimals: all sign x <=4 significant digits x exponent -8..8 (thorough;
         "(years 1,4,100,400,1900,2000,9999; month ends; leap days; 23:59:59.999999; fractions of length 1..12 around "
         "...4999/...5000; offsets -23:59..+23:59) x lexical variants + malformed stream; non-trivial = not the "
         "canonical mid-range value; distinct = distinct input strings/values"
-        ' ; plus streams: named simple types derived by restriction, attribute values of every type (falsy ones included)')
+        ' ; plus streams: named simple types derived by restriction, attribute values of every type (falsy ones included)'
+        " ; ISO 8601 forms outside XSD (basic, week, ordinal, reduced) must raise; an accepted 24:00:00 must be the next day's start; attributes typed by the element they stand on (same-named elements in one reply)")
 ASSUMPTIONS = ["Python int()/str()/float()/repr()/Decimal()/datetime are runtime (trusted, covered by correspondence)"]
 PARTIAL = [
     {"theorem": "float round trip", "missing": "Python float repr/parse is runtime; covered by correspondence only"},
@@ -576,6 +577,7 @@ def run(ctx):
             ctx.fail("time wire round trip differs", {"value": t}, repr(v), repr(dtv.timetz()))
     restricted_simple_types(ctx)
     attribute_values(ctx)
+    attributes_by_context(ctx)
     ctx.sample({"parse": cases[5]})
     ctx.sample({"parse": cases[len(cases) // 2]})
     ctx.sample({"decimal": str(vals[0]) if vals else None})
@@ -617,6 +619,66 @@ def attribute_values(ctx):
                                    (name == "ab" and sent in (("true", "1") if value else ("false", "0"))))
         if not ok:
             ctx.fail("an attribute value is not sent in the lexical form of its XSD type", meta, sent, lex)
+
+
+def attributes_by_context(ctx):
+    """Attribute values are converted by the type declared where the attribute stands: two local elements with one
+    name (order/item, summary/item) whose same-named attributes have different built-in types, in one reply, in either
+    order, each occurring more than once."""
+    import datetime
+    import decimal
+    schema = ('<xsd:complexType name="A"><xsd:sequence/><xsd:attribute name="v" type="xsd:int"/>'
+              '<xsd:attribute name="when" type="xsd:date"/><xsd:attribute name="amt" type="xsd:string"/></xsd:complexType>'
+              '<xsd:complexType name="B"><xsd:sequence/><xsd:attribute name="v" type="xsd:boolean"/>'
+              '<xsd:attribute name="when" type="xsd:dateTime"/><xsd:attribute name="amt" type="xsd:decimal"/></xsd:complexType>'
+              '<xsd:complexType name="Order"><xsd:sequence><xsd:element name="item" type="x:A" maxOccurs="unbounded"/>'
+              '</xsd:sequence></xsd:complexType>'
+              '<xsd:complexType name="Summary"><xsd:sequence><xsd:element name="item" type="x:B" maxOccurs="unbounded"/>'
+              '</xsd:sequence></xsd:complexType>'
+              '<xsd:element name="f"><xsd:complexType><xsd:sequence/></xsd:complexType></xsd:element>'
+              '<xsd:element name="fResponse"><xsd:complexType><xsd:sequence><xsd:element name="r"><xsd:complexType>'
+              '<xsd:sequence><xsd:element name="order" type="x:Order" minOccurs="0"/><xsd:element name="summary" '
+              'type="x:Summary" minOccurs="0"/><xsd:element name="again" type="x:Order" minOccurs="0"/></xsd:sequence>'
+              '</xsd:complexType></xsd:element></xsd:sequence></xsd:complexType></xsd:element>')
+    c = wsdlkit.client(wsdlkit.wsdl_doc(schema, "f", "fResponse"))
+    a_items = '<item v="1" when="2013-11-19" amt="1.50"/><item v="0" when="2000-02-29" amt="x"/>'
+    b_items = '<item v="1" when="2013-11-19T10:00:00" amt="1.50"/><item v="0" when="2000-02-29T00:00:00Z" amt="2"/>'
+    want_a = [[1, datetime.date(2013, 11, 19), "1.50"], [0, datetime.date(2000, 2, 29), "x"]]
+    want_b = [[True, datetime.datetime(2013, 11, 19, 10), decimal.Decimal("1.50")],
+              [False, None, decimal.Decimal("2")]]
+    for variant, inner in (("order-first", "<order>%s</order><summary>%s</summary><again>%s</again>" % (a_items, b_items, a_items)),
+                           ("summary-only", "<summary>%s</summary>" % b_items),
+                           ("order-only", "<order>%s</order>" % a_items)):
+        meta = {"stream": "attributes-by-context", "variant": variant}
+        ctx.case(common.canon(meta), True)
+        doc = ('<e:Envelope xmlns:e="%s"><e:Body><fResponse xmlns="%s"><r>%s</r></fResponse></e:Body></e:Envelope>'
+               % (xmlread.ENV11, wsdlkit.TNS, inner)).encode()
+        try:
+            r = c.service.f(__inject={"reply": doc})
+        except Exception as e:
+            ctx.fail("a valid reply with typed attributes could not be decoded", meta, repr(e), "a value")
+            continue
+
+        def rows(part):
+            out = []
+            for it in (getattr(part, "item", None) or []):
+                out.append([getattr(it, "_v", None), getattr(it, "_when", None), getattr(it, "_amt", None)])
+            return out
+        for name, want in (("order", want_a), ("summary", want_b), ("again", want_a)):
+            part = getattr(r, name, None)
+            if part is None:
+                continue
+            got = rows(part)
+            ok = len(got) == len(want)
+            for g, w_ in zip(got, want):
+                for gv, wv in zip(g, w_):
+                    if wv is None:
+                        ok = ok and isinstance(gv, datetime.datetime)
+                    else:
+                        ok = ok and type(gv) is type(wv) and gv == wv if not isinstance(wv, str) else ok and str(gv) == wv
+            if not ok:
+                ctx.fail("attribute values are not decoded by the type declared for their own element", dict(meta, part=name),
+                         repr(got), repr(want))
 
 
 def restricted_untranslated():
